@@ -29,6 +29,7 @@ package traceroute
 
 //@ func runTracerouteOnce
 //@ safety C19 C10 C20
+//@ ensures[ghost.mono]      sendN >= old(sendN)
 //@ requires[pre.ctx]        ctx != nil && sendN >= 0
 //@ ensures[C10.once.closed] forallint(h, !old(selb(isOpen, h)) ==> !selb(isOpen, h))
 //@ ensures[C10.once.others] forallint(h, old(selb(isOpen, h)) ==> selb(isOpen, h) && sel(closeN, h) == old(sel(closeN, h)))
@@ -41,9 +42,14 @@ package traceroute
 //@ ensures[C19.once.method] ret1 == nil && params.Protocol == "tcp" ==> params.TCPMethod == "" || params.TCPMethod == TCPConfigSYN || params.TCPMethod == TCPConfigSACK || params.TCPMethod == TCPConfigSYNSocket || params.TCPMethod == TCPConfigPreferSACK
 
 //@ func runE2eProbeOnce
-//@ safety C20
+//@ safety C20 C10
+//@ requires[pre.ctx]        ctx != nil && sendN >= 0
+//@ ensures[ghost.mono]      sendN >= old(sendN)
+//@ ensures[C10.e2e.closed]  forallint(h, !old(selb(isOpen, h)) ==> !selb(isOpen, h))
+//@ ensures[C10.e2e.others]  forallint(h, old(selb(isOpen, h)) ==> selb(isOpen, h) && sel(closeN, h) == old(sel(closeN, h)))
+//@ ensures[C20.e2e.nodial]  tcpDialed == old(tcpDialed)
 //@ ensures[C20.e2e.syn]     params.Protocol == "tcp" && (params.TCPMethod == TCPConfigSACK || params.TCPMethod == TCPConfigPreferSACK) ==> lastarg(runTracerouteOnce, params).TCPMethod == TCPConfigSYN
 //@ ensures[C20.e2e.other]   !(params.Protocol == "tcp" && (params.TCPMethod == TCPConfigSACK || params.TCPMethod == TCPConfigPreferSACK)) ==> lastarg(runTracerouteOnce, params).TCPMethod == params.TCPMethod
 //@ ensures[C05.e2e.single]  lastarg(runTracerouteOnce, params).MinTTL == params.MaxTTL && lastarg(runTracerouteOnce, params).MaxTTL == params.MaxTTL
 //@ ensures[C10.e2e.err]     ret1 != nil ==> ret0 == 0.0
-//@ modifies *
+//@ modifies *, ghost isOpen, ghost closeN, ghost clock, ghost sendN, ghost sendLog, ghost sendClock, ghost tcpDialed, ghost ioFail
